@@ -13,12 +13,15 @@ from ..oracles import ref_cm
 
 METRICS = ["tp", "tn", "fp", "fn", "p", "n", "top", "ton", "pop", "tpr", "tnr", "fpr", "fnr", "tar",
            "frr", "trr", "far", "topr", "tonr", "acceptance_rate", "rejection_rate", "ppv", "npv",
-           "fdr", "for_", "accuracy", "error_rate", "class_accuracy", "class_error_rate"]
+           "fdr", "for_", "accuracy", "error_rate", "class_accuracy", "class_error_rate",
+           "tpr_ci", "fnr_ci", "tnr_ci", "fpr_ci", "frr_ci", "far_ci"]
 RATE_METRICS = ["fnr", "fpr", "tpr", "tnr", "ppv", "npv", "accuracy", "topr", "fdr"]
 ALPHABET = ["a", "b", "zz", "a_b", "b_c", "c", "_", "x_", "Q r", "\u00e9", "a_", "B",
             # different strings that look alike (canonically equivalent Unicode, different case, padding)
             "e\u0301", "Jos\u00e9", "Jose\u0301", "\u00c5", "\u212b", "b ", " b", "A", ""]
-POS_LABELS = [(1, 0), (0, 1), ("yes", "no"), (7, 3)]
+POS_LABELS = [(1, 0), (0, 1), ("yes", "no"), (7, 3),
+              # 64-bit ids that no float64 tells apart (next to a float score column)
+              (2**53 + 1, 2**53), (2**53 + 2, 2**53 + 3)]
 CI_METHODS = ["quantile", "bc", "bca"]
 
 
@@ -117,6 +120,9 @@ def ref_metric(fr, rows, t, metric):
     pos = [stored_score(fr, i) for i in rows if fr["lab"][i]]
     neg = [stored_score(fr, i) for i in rows if not fr["lab"][i]]
     tp, fn, fp, tn = ref_cm(pos, neg, t, fr["sc"], fr["ec"])
+    if ":" in metric:  # one bound of an interval-valued metric, e.g. "fnr_ci:0"
+        name, b = metric.split(":")
+        return float(getattr(ConfusionMatrix(matrix=[[tp, fn], [fp, tn]], binary=True), name)()[int(b)])
     return float(getattr(ConfusionMatrix(matrix=[[tp, fn], [fp, tn]], binary=True), metric)())
 
 
@@ -195,6 +201,17 @@ def check_values(case):
     ctx = dict(txt=f"metric={metric} normalize={normalize} config={fr['sc']}/{fr['ec']} "
                    f"group values={fr['keys']} pos_label={POS_LABELS[fr['pl']][0]!r}", thr=thr)
     r = _call(fr, case["thr_kind"], thr, metric, normalize)
+    if metric.endswith("_ci"):
+        # interval-valued metrics: every cell holds (lower, upper); each bound is normalised like a metric of
+        # its own (lower bounds of small rates are negative)
+        differ = False
+        for b in (0, 1):
+            keys, raw, exp, defined = ref_table(fr, thr, f"{metric}:{b}", normalize)
+            part = r.values.apply(lambda col: col.map(lambda c: float(np.asarray(c, dtype=float).reshape(-1)[b])))
+            _compare(part, keys, exp, defined, dict(ctx, txt=ctx["txt"] + f" bound {b}"), "bias:value")
+            differ = differ or (len(keys) >= 2 and np.isfinite(raw).any()
+                                and bool(np.any(np.nanmax(raw, axis=0) - np.nanmin(raw, axis=0) > 0)))
+        return dict(nontrivial=bool(differ), labels=[f"ncols:{fr['ncols']}", f"norm:{normalize}", "interval-metric"])
     keys, raw, exp, defined = ref_table(fr, thr, metric, normalize)
     _compare(r.values, keys, exp, defined, ctx, "bias:value")
     require(r.lower is None and r.upper is None, "bias:unexpected-interval", ctx["txt"])
